@@ -284,6 +284,7 @@ def run(ctx: Context) -> None:
     # the space the user declared is the space the samplers see: bounds / precision are private copies (C04-R10)
     from . import c04
     ctx.rule(c04.r10_derived_sources_private)
+    ctx.rule(declared_space_reaches_search_space)
 
 
 def r1_grid(ctx: Context, base: ClassInfo) -> None:
@@ -378,3 +379,18 @@ def grid_within_bounds(ctx: Context) -> None:
         keep.append(f)
     ctx.findings[before:] = keep
     ctx.obligations[n_obl:] = [o for o in ctx.obligations[n_obl:] if not (o["verdict"] == "violated" and o["key"].endswith("arange-stop-slack:absolute-constant"))]
+
+
+def declared_space_reaches_search_space(ctx: Context) -> None:
+    """`the space the user declared`: Calibrator.__init__ builds its SearchSpace from the bounds and precision it was given, passed on as they are."""
+    init = ctx.func("black_it.calibrator:Calibrator.__init__")
+    calls = [c for c in calls_in(init.node, scope_only=False) if (dotted(c.func) or "").split(".")[-1] == "SearchSpace"]
+    ctx.floor("R4", "SearchSpace(...) construction in Calibrator.__init__", len(calls), 1)
+    c = calls[0]
+    from ..util import kwarg
+    for pos, prm in ((0, "parameters_bounds"), (1, "parameters_precision")):
+        a = kwarg(c, prm, pos)
+        reb = [x for x in ast.walk(init.node) if isinstance(x, ast.Name) and x.id == prm and isinstance(x.ctx, ast.Store)]
+        ok = isinstance(a, ast.Name) and a.id == prm and prm in init.params and not reb
+        ctx.check(ok, "R4.declared-space", f"Calibrator.__init__:SearchSpace:{prm}", f"the search space is built from the caller's `{prm}` itself",
+                  f"SearchSpace receives `{src(a)[:60] if a is not None else '?'}` for {prm}: the grid the samplers use is built from a transformed copy of what the user declared", init, c)
